@@ -7,10 +7,10 @@ namespace ImathVerif.Gen
 open ImathVerif
 
 /-- extracted from the C++ template at T = Sym; 2 path(s) -/
-def Frame.rotationMatrixWithUpDir {α : Type} [Add α] [Sub α] [Mul α] [Div α] [Neg α] [LT α] [LE α] [DecidableLT α] [DecidableLE α] [DecidableEq α] [OfNat α 0] [OfNat α 1] [OfNat α 2] (tmin : α) (sqrt : α → α) (fromDir : V3 α) (toDir : V3 α) (upDir : V3 α) : (M44 α) :=
-  let t10 := (V3.length tmin sqrt ⟨fromDir.x, fromDir.y, fromDir.z⟩)
-  let t12 := (Frame.alignZAxisWithTargetDir tmin sqrt ⟨fromDir.x, fromDir.y, fromDir.z⟩ ⟨(0 : α), (1 : α), (0 : α)⟩)
-  let t29 := (Frame.alignZAxisWithTargetDir tmin sqrt ⟨toDir.x, toDir.y, toDir.z⟩ ⟨upDir.x, upDir.y, upDir.z⟩)
+def Frame.rotationMatrixWithUpDir {α : Type} [Add α] [Sub α] [Mul α] [Div α] [Neg α] [LT α] [LE α] [DecidableLT α] [DecidableLE α] [DecidableEq α] [OfNat α 0] [OfNat α 1] [OfNat α 2] (tmin : α) (tmax : α) (sqrt : α → α) (fromDir : V3 α) (toDir : V3 α) (upDir : V3 α) : (M44 α) :=
+  let t10 := (V3.length tmin tmax sqrt ⟨fromDir.x, fromDir.y, fromDir.z⟩)
+  let t12 := (Frame.alignZAxisWithTargetDir tmin tmax sqrt ⟨fromDir.x, fromDir.y, fromDir.z⟩ ⟨(0 : α), (1 : α), (0 : α)⟩)
+  let t29 := (Frame.alignZAxisWithTargetDir tmin tmax sqrt ⟨toDir.x, toDir.y, toDir.z⟩ ⟨upDir.x, upDir.y, upDir.z⟩)
   if t10 = (0 : α) then
     ⟨(1 : α), (0 : α), (0 : α), (0 : α), (0 : α), (1 : α), (0 : α), (0 : α), (0 : α), (0 : α), (1 : α), (0 : α), (0 : α), (0 : α), (0 : α), (1 : α)⟩
   else
